@@ -62,7 +62,10 @@ Inductive leafcall :=
 | LcDim (d : pdim) (kd : kdarg)             (* val.op(dim=d [, keepdim=kd]) ; d = PNoDefault: no dim kwarg *)
 | LcFeature.                                (* flatten the feature dims (or unsqueeze(-1)) and reduce dim=-1 *)
 
-Record red_out := { ro_bs : shape; ro_names : names_t; ro_call : leafcall }.
+(* what prod's keepdim emulation does to every leaf afterwards *)
+Inductive post := PostNone | PostUnsqueeze (n : nat) | PostReshapeOnes.
+
+Record red_out := { ro_bs : shape; ro_names : names_t; ro_call : leafcall; ro_post : post }.
 
 Definition cast_reduction (bs : shape) (names : names_t) (dim : dimarg) (kd : kdarg)
            (tuple_ok call_on_nested : bool) (bs_override : option shape) : res red_out :=
@@ -72,7 +75,7 @@ Definition cast_reduction (bs : shape) (names : names_t) (dim : dimarg) (kd : kd
   | Ok PFeature =>
       if kd_truthy kd then Raised                                         (* TypeError *)
       else if negb call_on_nested then Raised                             (* RuntimeError *)
-      else Ok {| ro_bs := bs; ro_names := names; ro_call := LcFeature |}
+      else Ok {| ro_bs := bs; ro_names := names; ro_call := LcFeature; ro_post := PostNone |}
   | Ok d =>
       let dim_given := match d with PNoDefault => false | _ => true end in
       if dim_given || kd_truthy kd then
@@ -97,8 +100,8 @@ Definition cast_reduction (bs : shape) (names : names_t) (dim : dimarg) (kd : kd
               | _ => map (fun _ => 1) bs                                   (* dim None, or keepdim without dim *)
               end
           end in
-        Ok {| ro_bs := bs'; ro_names := names'; ro_call := LcDim d kd |}
-      else Ok {| ro_bs := []; ro_names := None; ro_call := LcPlain |}
+        Ok {| ro_bs := bs'; ro_names := names'; ro_call := LcDim d kd; ro_post := PostNone |}
+      else Ok {| ro_bs := []; ro_names := None; ro_call := LcPlain; ro_post := PostNone |}
   end.
 
 (* ---------- front-ends ---------- *)
@@ -114,7 +117,7 @@ Fixpoint insert_at {A} (n : nat) (x : A) (l : list A) : list A :=
   | S n', y :: r => y :: insert_at n' x r
   | S _, [] => [x]
   end.
-Definition td_unsqueeze (bs : shape) (names : names_t) (d : Z) : res (shape * names_t) :=
+Definition td_unsqueeze (bs : shape) (names : names_t) (d : Z) : res (shape * names_t * nat) :=
   let nb := Z.of_nat (List.length bs) in
   let nd := if (d <? 0)%Z then (nb + d + 1)%Z else d in
   if ((nd >? nb) || (nd <? 0))%Z then Raised else
@@ -123,7 +126,7 @@ Definition td_unsqueeze (bs : shape) (names : names_t) (d : Z) : res (shape * na
       match names with
       | Some (x :: r) => Some (insert_at n None (x :: r))
       | other => other                                                     (* `if names:` — [] stays [] *)
-      end).
+      end, n).
 
 Definition front (op : redop) (bs : shape) (names : names_t) (dim : dimarg) (kd : kdarg) : res red_out :=
   match op with
@@ -150,15 +153,18 @@ Definition front (op : redop) (bs : shape) (names : names_t) (dim : dimarg) (kd 
                   if Z.eqb z 0
                   then (* result.reshape([1 for _ in self.shape]) *)
                        if Nat.eqb (fold_right Nat.mul 1 (ro_bs r)) 1
-                       then Ok {| ro_bs := map (fun _ => 1) bs; ro_names := None; ro_call := ro_call r |}
+                       then Ok {| ro_bs := map (fun _ => 1) bs; ro_names := None; ro_call := ro_call r;
+                                  ro_post := PostReshapeOnes |}
                        else Raised
                   else match td_unsqueeze (ro_bs r) (ro_names r) z with
-                       | Ok (b, n) => Ok {| ro_bs := b; ro_names := n; ro_call := ro_call r |}
+                       | Ok (b, n, pos) => Ok {| ro_bs := b; ro_names := n; ro_call := ro_call r;
+                                                  ro_post := PostUnsqueeze pos |}
                        | Raised => Raised
                        end
               | None =>
                   if Nat.eqb (fold_right Nat.mul 1 (ro_bs r)) 1
-                  then Ok {| ro_bs := map (fun _ => 1) bs; ro_names := None; ro_call := ro_call r |}
+                  then Ok {| ro_bs := map (fun _ => 1) bs; ro_names := None; ro_call := ro_call r;
+                             ro_post := PostReshapeOnes |}
                   else Raised
               end
             end
